@@ -108,6 +108,8 @@ def chk_integrate(case, acc, seed):
 CENTRES = {
     'c2': [450, 550], 'c3': [450, 500, 550], 'c4': [440, 480, 520, 560], 'c5': [420, 460, 500, 540, 580],
     'cn3': [440, 470, 560], 'cn4': [430, 450, 520, 580],
+    'cn5h': [455, 480, 505, 540, 565],            # half-spacings 12.5 / 17.5: the bin edges are not integers
+    'c4h': [455, 480, 505, 530],
 }
 
 
@@ -122,11 +124,16 @@ def chk_bin(case, acc, seed):
     n = len(g)
     kw = dict(interp_method=rule, ends=ends, preserve_power=pp, waveunit=unit)
     sub = dict(case)
+    cpass = c * f
+    if case.get('cdtype') == 'int':
+        cpass = np.array(CENTRES[cname], dtype=np.int64)          # centres handed over as an integer array (nm only)
+        unit = unit + ':integer-centres'                          # part of every finding key of this case
+        acc.cls('bin:integer-centres')
     # (1) one value per centre, linear spectrum integrates exactly over each bin
     a0, b0 = 2.0, 0.004
     lin_vals = [a0 + b0 * x for x in g]
     try:
-        bins = np.asarray(spec(g, lin_vals, sunit).bin(c * f, **kw))
+        bins = np.asarray(spec(g, lin_vals, sunit).bin(cpass, **kw))
     except Exception as e:
         acc.violation(f'bin:raises:{type(e).__name__}', sub, repr(e))
         acc.case(case, outcome='raise')
@@ -138,7 +145,7 @@ def chk_bin(case, acc, seed):
     mids = c[:-1] + d
     edges = np.concatenate([[c[0] - d[0]], mids, [c[-1] + d[-1]]]) if ends == 'symmetric' else np.concatenate([[c[0]], mids, [c[-1]]])
     exact = np.array([(a0 * (edges[k + 1] - edges[k]) + b0 * (edges[k + 1] ** 2 - edges[k] ** 2) / 2) for k in range(len(c))]) * f
-    s = spec(g, lin_vals, unit)
+    s = spec(g, lin_vals, case['unit'])
     tot = s.integrate((c[0]) * f, (c[-1]) * f, method=rule)
     applicable = (rule == 'trapz') or uniform_c
     if applicable:
@@ -155,18 +162,18 @@ def chk_bin(case, acc, seed):
         if not pp:
             for k in range(n):
                 e = [0.0] * n; e[k] = 1.0
-                bk = np.asarray(spec(g, e, sunit).bin(c * f, **kw))
+                bk = np.asarray(spec(g, e, sunit).bin(cpass, **kw))
                 if np.any(bk < 0):
                     acc.violation(f'bin:{rule}:negative', dict(sub, impulse=g[k]), f'negative bin {bk.min()} for a non-negative spectrum')
                     break
         else:
             pos = rm.generic_real((n,), seed, tag=9, lo=0.1, hi=2.0)
             sp = spec(g, pos, sunit)
-            bk = np.asarray(sp.bin(c * f, **kw))
+            bk = np.asarray(sp.bin(cpass, **kw))
             if np.any(bk < 0) or not np.all(np.isfinite(bk)):
                 acc.violation(f'bin:{rule}:negative', sub, 'negative / non-finite bin for a positive spectrum')
             # kinked data: the two quadrature rules give different integrals, the bins must sum to the one of the rule used
-            want = spec(g, pos, unit).integrate(c[0] * f, c[-1] * f, method=rule)
+            want = spec(g, pos, case['unit']).integrate(c[0] * f, c[-1] * f, method=rule)
             if not np.isclose(np.sum(bk), want, rtol=1e-10):
                 acc.violation(f'bin:{rule}:{ends}:preserve-power:{unit}', dict(sub, payload='kinked'),
                               f'sum(bins) = {np.sum(bk)} != integral over the centre span with the same rule {want}')
@@ -473,6 +480,8 @@ def t_static(arg, acc):
                     for pp in (False, True):
                         acc.transitions += 1
                         chk_bin({'kind': 'bin', 'centres': cname, 'ends': ends, 'rule': rule, 'preserve': pp, 'unit': arg['unit']}, acc, seed)
+                        if arg['unit'] == 'nm':
+                            chk_bin({'kind': 'bin', 'centres': cname, 'ends': ends, 'rule': rule, 'preserve': pp, 'unit': 'nm', 'cdtype': 'int'}, acc, seed)
                         other = {'nm': 'um', 'um': 'nm'}[arg['unit']]
                         chk_bin({'kind': 'bin', 'centres': cname, 'ends': ends, 'rule': rule, 'preserve': pp, 'unit': arg['unit'], 'sunit': other}, acc, seed)
         for unit in UF:
@@ -498,7 +507,7 @@ def run(tier, seed, acc, procs=None):
         'bounds': {'resize_depth': depth, 'events': len(EVENTS), 'starts': list(STARTS)},
         'assumptions': ["Simpson's rule is only judged for uniformly spaced centres / odd sample counts, as the statement says",
                         'exact piecewise-linear integrals in Fractions'],
-        'require': {'integrate': 50, 'bin:trapz:nm': 20, 'bin:simps:um': 20, 'refused-events': 50, 'resize-states': 50, 'crop-units': 8, 'bin:foreign-unit': 40},
+        'require': {'integrate': 50, 'bin:trapz:nm': 20, 'bin:simps:um': 20, 'refused-events': 50, 'resize-states': 50, 'crop-units': 8, 'bin:foreign-unit': 40, 'bin:integer-centres': 30},
     }
 
 
